@@ -311,8 +311,8 @@ class SymEval:
             val = self.cfg.def_value(d, name)
             if (name + "[]") in self._all_defs or name in self._mutated:
                 val = None
-            if val is not None and _mentions(val, name):
-                val = None  # x = x + 1 is an update of x (like x += 1), not a definition in terms of other values  # elements are stored into the object later: its defining expression no longer describes it
+            if val is not None and _mentions(val, name) and d in self.rd.get(d, {}).get(name, ()):
+                val = None  # loop-carried x = x + 1: an update of x (like x += 1), not a definition from other values  # elements are stored into the object later: its defining expression no longer describes it
             if val is not None and depth < self.max_depth and nd.kind == "stmt" and isinstance(nd.ast, (
                     ast.Assign, ast.AnnAssign)):
                 vt = self.term(val, d, depth + 1)
@@ -570,6 +570,16 @@ def negate(t: Term) -> Term:
             return ("eq", t[1])
         if t[0] == "const" and isinstance(t[1], bool):
             return ("const", not t[1])
+        if t[0] in ("and", "or") and all(_is_boolish(p) for p in t[1]):
+            # De Morgan over truth-valued operands: one normal form for 'if not (a or b)' and 'if not a and not b'
+            kind = "or" if t[0] == "and" else "and"
+            parts = []
+            for p in t[1]:
+                q = negate(p)
+                for x in (q[1] if isinstance(q, tuple) and q and q[0] == kind else (q,)):
+                    if x not in parts:
+                        parts.append(x)
+            return (kind, tuple(sorted(parts, key=repr)))
     return ("not", t)
 
 
